@@ -5,10 +5,11 @@ import json, os, shutil, subprocess, sys
 seed = os.path.abspath(sys.argv[1]); prop = sys.argv[2]
 tier = sys.argv[3] if len(sys.argv) > 3 else 'quick'
 name = os.path.basename(seed.rstrip('/'))
-conf = subprocess.run([sys.executable, '/verif/tools/confirm_seed.py', seed], capture_output=True, text=True)
+HERE = os.path.dirname(os.path.dirname(os.path.abspath(__file__)))
+conf = subprocess.run([sys.executable, os.path.join(HERE, 'tools', 'confirm_seed.py'), seed], capture_output=True, text=True)
 c = json.loads(conf.stdout)
-out = subprocess.run(['/verif/tools/try_seed.sh', seed, prop, tier], capture_output=True, text=True).stdout
-dst = os.path.join('/verif/seeded', name)
+out = subprocess.run([os.path.join(HERE, 'tools', 'try_seed.sh'), seed, prop, tier], capture_output=True, text=True).stdout
+dst = os.path.join(HERE, 'seeded', name)
 os.makedirs(dst, exist_ok=True)
 for f in ('patch.diff', 'demo.py'):
   shutil.copy(os.path.join(seed, f), dst)
